@@ -1,0 +1,45 @@
+//go:build verif
+
+package consensus
+
+import (
+	"github.com/icon-project/goloop/common"
+	"github.com/icon-project/goloop/common/crypto"
+	"github.com/icon-project/goloop/common/db"
+	"github.com/icon-project/goloop/module"
+)
+
+// VerifRawCommitVoteList builds a CommitVoteList from raw items (timestamps
+// and 65-byte signatures), without any consistency check.
+func VerifRawCommitVoteList(round int32, psid *PartSetIDAndAppData, ts []int64, sigs [][]byte) (module.CommitVoteSet, error) {
+	vl := &CommitVoteList{}
+	vl.Round = round
+	vl.BlockPartSetIDAndAppData = psid
+	vl.Items = make([]blockCommitVoteItem, len(ts))
+	for i := range ts {
+		s, err := crypto.ParseSignature(sigs[i])
+		if err != nil {
+			return nil, err
+		}
+		vl.Items[i] = blockCommitVoteItem{ts[i], common.Signature{Signature: s}}
+	}
+	return vl, nil
+}
+
+func VerifEnoughVote(voted, voters int) bool { return enoughVote(voted, voters) }
+
+func VerifVoteSignatureBytes(m *VoteMessage) []byte {
+	bs, _ := m.Signature.Signature.SerializeRSV()
+	return bs
+}
+
+func VerifPSIDWithAppData(psid *PartSetID, nid uint32, ntsVoteCount uint16) *PartSetIDAndAppData {
+	return psid.WithAppData(psidAppData(nid, ntsVoteCount))
+}
+
+// VerifCommitToVoteList runs CommitVoteList.toVoteList (the conversion used by
+// processBlock for fast-synced blocks) without BTP network types.
+func VerifCommitToVoteList(cvs module.CommitVoteSet, height int64, bid []byte,
+	validators module.ValidatorList, dbase db.Database) (*VoteList, error) {
+	return cvs.(*CommitVoteList).toVoteList(height, bid, nil, validators, module.ZeroNTSHashEntryList{}, dbase)
+}
